@@ -198,7 +198,7 @@ impl Engine for E2 {
             2 => Some(cfg.usize_below(if tier == Tier::Thorough { 4097 } else { 600 })),
             // rarely a large buffer (jumbo frames, Unix sockets): anything that silently assumes a
             // small one shows here
-            _ => Some(*cfg.pick(&[8192usize, 8193, 9000, 16_384, 20_000])),
+            _ => Some(*cfg.pick(&[8192usize, 8193, 9000, 16_384, 20_000, 65_536, 70_000, 131_072])),
         };
         let term = if route == Route::Writer { cfg.pick(TERMS).to_string() } else { "\n".to_string() };
         let via_client = route != Route::Writer && cfg.chance(1, 3);
